@@ -20,7 +20,7 @@ void h_roundtrip_inverse(void)
   if (s.n < 0 || s.n > QSV_MAX) return;
   s.p = malloc(s.n * sizeof(quint16));
   if (s.p == 0) return;
-  if (!HT_FINDING_SPLIT(s)) return;   /* the input class of finding C05-ht-garbled-name is reported there */
+  if (!HT_FINDING_SPLIT(s)) return;   /* (split of the fixed finding C05-ht-garbled-name; the macro is 1 now) */
   OptSaslMechanism r;
   SaslMechanism_fromString(&r, s);
   if (!r.has) return;
